@@ -8,6 +8,7 @@ every function of the prophyc tool chain between `main` and `_write_file`
   (E3) dict iteration is insertion-ordered (CPython >= 3.7) -- allowed;
   (E4) writes no state that is shared by the inputs of one run: no rebinding of a `global`, no store into / mutating method call on an
        object bound to a module-level name (a module-level cache would make the output for one file depend on the files before it).
+       The same for a mutable container assigned in a class body and changed through self / cls without the instance having its own.
        State kept on objects that live for the whole run (the parser, the file processor) is not covered by E4: see the stand-in.
 Under CPython's semantics (hash randomisation only affects set iteration order; dicts are insertion-ordered) this implies that the
 generated text is a function of the input files and options.  The check is an abstract interpretation of each function body over the
@@ -208,6 +209,44 @@ def global_writes(fn, mod_names):
     return sites
 
 
+def class_level_mutables(tree):
+    """{class name: names assigned in the class body to a fresh mutable container (set() / [] / {} / dict() / list() ...)}: one
+    object shared by every instance, i.e. by every file handled in a run, unless an instance rebinds the attribute"""
+    out = {}
+    for c in ast.walk(tree):
+        if not isinstance(c, ast.ClassDef):
+            continue
+        names = set()
+        for s in c.body:
+            if isinstance(s, ast.Assign):
+                v = s.value
+                mutable = isinstance(v, (ast.List, ast.Dict, ast.Set, ast.ListComp, ast.DictComp, ast.SetComp)) or (
+                    isinstance(v, ast.Call) and dotted(v.func) in ('set', 'list', 'dict', 'defaultdict', 'collections.defaultdict', 'OrderedDict'))
+                if mutable:
+                    for t in s.targets:
+                        if isinstance(t, ast.Name):
+                            names.add(t.id)
+        rebound = set()
+        for n in ast.walk(c):
+            if isinstance(n, ast.Attribute) and isinstance(n.ctx, ast.Store) and isinstance(n.value, ast.Name) and n.value.id == 'self':
+                rebound.add(n.attr)          # an instance attribute of that name is bound somewhere: the instance has its own
+        if names - rebound:
+            out[c.name] = names - rebound
+    return out
+
+
+def class_state_writes(fn, shared_names):
+    """(E4, class level) sites in a method where a container that lives on the class is changed through `self` / `cls`"""
+    sites = []
+    own = lambda e: isinstance(e, ast.Attribute) and isinstance(e.value, ast.Name) and e.value.id in ('self', 'cls') and e.attr in shared_names
+    for n in ast.walk(fn):
+        if isinstance(n, ast.Call) and isinstance(n.func, ast.Attribute) and n.func.attr in MUTATORS and own(n.func.value):
+            sites.append('line %d: %s.%s.%s() changes a container shared by all instances' % (n.lineno, n.func.value.value.id, n.func.value.attr, n.func.attr))
+        elif isinstance(n, ast.Subscript) and isinstance(n.ctx, (ast.Store, ast.Del)) and own(n.value):
+            sites.append('line %d: stores into %s.%s, a container shared by all instances' % (n.lineno, n.value.value.id, n.value.attr))
+    return sites
+
+
 def functions_of(tree):
     out = []
 
@@ -255,6 +294,8 @@ def check_determinism(repo):
             c = FnCheck(set_attrs, set_funcs)
             c.visit(fn)
             shared_writes = global_writes(fn, module_level_names(tree)) if q != '<module>' else []
+            if q != '<module>' and '.' in q:
+                shared_writes += class_state_writes(fn, class_level_mutables(tree).get(q.split('.')[0], set()))
             seg = ast.get_source_segment(src, fn) if q != '<module>' else ''
             name = '%s:%s' % (rel.replace('/', '.')[:-3], q)
             obs = [{'name': name + '/effect.no-ambient-nondeterminism', 'kind': 'effect', 'line': getattr(fn, 'lineno', None),
@@ -270,3 +311,17 @@ def check_determinism(repo):
                             'sha256': hashlib.sha256((seg or '').encode()).hexdigest(), 'status': 'ok', 'reason': None, 'obligations': obs,
                             'paths': 1, 'covers': {'requires': 'sat'}, 'solver_time': 0.0, 'wall': 0.0, 'trusted': [], 'notes': []})
     return results
+
+
+def check_shared_state(repo):
+    """C16: the per-file outputs of one run must not depend on which other files the run handled before -- only clause E4 of the
+    determinism check (no function writes state shared between inputs), reported under C16"""
+    out = []
+    for r in check_determinism(repo):
+        obs = [dict(o, name=o['name'].replace('/effect.', '/per-file-output.')) for o in r.get('obligations', [])
+               if o['name'].endswith('no-state-shared-between-inputs-is-written')]
+        if r.get('status') == 'ok' and not obs:
+            continue
+        r = dict(r, props=['C16'], obligations=obs)
+        out.append(r)
+    return out
